@@ -127,6 +127,35 @@ pub fn content_addressed() {
     sym::reach(1);
 }
 
+/// A block with an update record whose digest equals its parent's (two identical consecutive edit scripts on one
+/// array) is copied byte for byte by meld, directly and through a relay.
+pub fn identical_scripts_meld() {
+    let a = Rep::new();
+    let k = 3 + sym::choose(2);
+    let all = ["a", "b", "c", "d", "e"];
+    for i in 0..3 {
+        let ids: Vec<&str> = all[i..k + 1].to_vec();
+        let vals: Vec<String> = ids.iter().map(|_| "x".to_string()).collect();
+        // the removed elements live on in a second array, so only the first array's descriptor changes the same way twice
+        let mut d = doc_with(&ids, &vals, "t");
+        d.insert("more♭".to_string(), Value::from(all[..i].iter().map(|id| json!({"_id": *id, "v": "x"})).collect::<Vec<Value>>()));
+        a.m.update(d).unwrap();
+        a.m.commit(None).unwrap().expect("block");
+    }
+    let s = dump(&a.ad);
+    check_names(&s);
+    let mut b = Rep::new();
+    b.pull(&a);
+    let t = dump(&b.ad);
+    check_names(&t);
+    assert!(s == t, "melded items are not byte-identical");
+    assert!(doc_text(&b.m) == doc_text(&a.m), "melded replica shows a different document");
+    let mut c = Rep::new();
+    c.pull(&b);
+    assert!(dump(&c.ad) == s, "relayed items are not byte-identical");
+    sym::reach(1);
+}
+
 /// reference model of the write-once contract
 pub struct Model(pub Vec<(String, Vec<u8>)>);
 
